@@ -255,6 +255,89 @@ fn blackbox(kind: &str, k: usize, out: &mut Out) {
     }
 }
 
+/// replay of an H2-frontend black-box scenario through the sibling binary c02h2bb
+fn blackbox_h2(kind: &str, k: usize, out: &mut Out) {
+    let exe = std::env::current_exe().unwrap().with_file_name("c02h2bb");
+    let dir = std::env::temp_dir().join(format!("c02h2bb-replay-{}", std::process::id()));
+    let _ = std::fs::create_dir_all(&dir);
+    let f = dir.join("scn.txt");
+    std::fs::write(&f, format!("scn 0 {kind} {k}\n")).unwrap();
+    let o = match std::process::Command::new(&exe).arg(&f).current_dir(&dir).output() {
+        Ok(o) => o,
+        Err(e) => {
+            out.note(&format!("invalid-case: cannot run {exe:?}: {e}"));
+            return;
+        }
+    };
+    let _ = std::fs::remove_dir_all(&dir);
+    let text = String::from_utf8_lossy(&o.stdout).to_string();
+    let mut streams: Vec<(String, usize)> = vec![];
+    for line in text.lines().filter(|l| l.starts_with("res ")) {
+        let get = |key: &str| -> String {
+            line.split_whitespace().find_map(|w| w.strip_prefix(&format!("{key}=")).map(|v| v.to_string())).unwrap_or_default()
+        };
+        let (status, end, closed, body) = (get("status"), get("end"), get("closed"), get("body").parse::<usize>().unwrap_or(0));
+        let class = match end.as_str() {
+            "clean" if status == "200" => "relay".to_string(),
+            "clean" => format!("default {status}"),
+            "rst" => "abort".to_string(),
+            _ if closed == "1" => "unanswered-close".to_string(),
+            _ => "hang".to_string(),
+        };
+        out.note(&format!("black-box h2 {kind} {k}: {line} => {class}"));
+        streams.push((class, body));
+    }
+    if streams.len() != 3 {
+        out.viol("bb2-no-result", &format!("h2 {kind} {k}: no result from the driver"));
+        return;
+    }
+    for (j, want_body) in [(0usize, 4usize), (2, 6)] {
+        if streams[j].0 != "relay" || streams[j].1 != want_body {
+            out.viol("bb2-sibling", &format!("h2 {kind} {k}: sibling stream {} on the same connection: {} body={} (expected 200, {want_body} bytes, END_STREAM)", 1 + 2 * j, streams[j].0, streams[j].1));
+        }
+    }
+    // documented outcome of the faulty stream on an H2 frontend
+    let d = |n: u32| format!("default {n}");
+    let (want, blen): (Vec<String>, Option<usize>) = match kind {
+        "close_at" | "reset_at" | "chunked_close_at" | "stall_after" => {
+            let (head, full) = if kind == "chunked_close_at" { (BB_HEAD_CH, BB_HEAD_CH + BB_CHUNKED) } else { (BB_HEAD_CL, BB_HEAD_CL + 20) };
+            let lost = if kind == "stall_after" { d(504) } else { d(502) };
+            if k >= full {
+                (vec!["relay".into()], Some(20))
+            } else if k < head {
+                (vec![lost], None)
+            } else if kind == "reset_at" {
+                (vec!["abort".into(), lost], None)
+            } else {
+                (vec!["abort".into()], None)
+            }
+        }
+        "close_delim_at" => {
+            if k >= BB_HEAD_CD { (vec!["relay".into()], Some(k.min(BB_HEAD_CD + 20) - BB_HEAD_CD)) } else { (vec![d(502)], None) }
+        }
+        "refuse" | "nobackend" => (vec![d(503)], None),
+        "stall" => (vec![d(504)], None),
+        "garbage" => (vec![d(502)], None),
+        "nohost" => (vec![d(404)], None),
+        _ => (vec![], None),
+    };
+    let (got, body) = &streams[1];
+    if got == "hang" {
+        out.viol("bb2-hang", &format!("h2 {kind} {k}: no answer, no RST_STREAM and no close within the deadline"));
+    } else if got == "unanswered-close" {
+        out.viol("bb2-unanswered-close", &format!("h2 {kind} {k}: the connection was closed while the stream had no answer (documented {want:?})"));
+    } else if !want.is_empty() && !want.contains(got) {
+        out.viol("bb2-mismatch", &format!("h2 {kind} {k}: client observed '{got}', documented {want:?}"));
+    }
+    if got == "relay" {
+        if let Some(n) = blen {
+            if *body != n {
+                out.viol("bb2-body", &format!("h2 {kind} {k}: END_STREAM after {body} body bytes, backend sent {n}"));
+            }
+        }
+    }
+}
+
 const DOCUMENTED: [u16; 12] = [301, 302, 308, 400, 401, 404, 408, 421, 429, 502, 503, 504];
 
 fn run(case: &Case, out: &mut Out) {
@@ -383,6 +466,10 @@ fn run(case: &Case, out: &mut Out) {
                 if !(st.readiness.interest.is_writable() && st.readiness.event.is_writable()) {
                     out.viol("force-not-armed", "forced termination without WRITABLE in interest and event");
                 }
+            }
+            "blackboxh2" => {
+                blackbox_h2(a[0].s(), a[1].n() as usize, out);
+                out.obs(&[]);
             }
             "blackbox" => {
                 // replay of a black-box scenario: run the sibling binary on this one
